@@ -93,6 +93,7 @@ type Client struct {
 	// the real main program); the connection being closed is then what ends the session.
 	closeEnds  bool
 	doneClosed bool
+	tid        int // logical thread the connection belongs to (-1: unknown); see goReg
 }
 
 // Waiting reports whether the server is blocked reading this connection (call at quiescence).
@@ -125,10 +126,13 @@ func (c *Client) End() {
 }
 
 func NewClient() *Client {
-	return &Client{feed: make(chan []byte), idle: make(chan struct{}, 1), done: make(chan struct{})}
+	return &Client{tid: -1, feed: make(chan []byte), idle: make(chan struct{}, 1), done: make(chan struct{})}
 }
 
 func (c *Client) Read(p []byte) (int, error) {
+	if r := curGoReg; r != nil {
+		r.adopt(c.tid)
+	}
 	c.Reads++
 	for len(c.buf) == 0 {
 		c.mu.Lock()
@@ -223,12 +227,30 @@ type World struct {
 	nconn     int
 	batchSock string
 	app       *appInst
+	// SeqGuard: the harness issues one command at a time; a command that waits for a key lock is
+	// then stuck for good (see seqGuard). LockTrouble is what the guard saw.
+	SeqGuard bool
+	guard    *SeqLockGuard
+	// Who, if set, names the logical thread that is opening a connection (see goReg).
+	Who func() int
+}
+
+// LockTrouble reports what the sequential lock guard observed (empty: nothing).
+func (w *World) LockTrouble() string {
+	if w.guard == nil {
+		return ""
+	}
+	return w.guard.Trouble
 }
 
 var worldSockSeq int64
 
 // Release forgets the world's batching relay (its goroutines stay parked) and the dial hook.
 func (w *World) Release() {
+	if w.guard != nil {
+		w.guard.Uninstall()
+		w.guard = nil
+	}
 	if w.app != nil {
 		w.stopApp()
 		return
@@ -372,10 +394,16 @@ func (w *World) ConnectLocked(port int) *Session {
 // Connect opens a client connection on a port: new handlers with their own backend connections,
 // parser/responder of the configured protocol, and the server loop on its own goroutine.
 func (w *World) Connect(port int) *Session {
+	if w.SeqGuard && w.guard == nil && w.Cfg.Lock != "none" {
+		w.guard = InstallSeqLockGuard(w.LockSlot())
+	}
 	if w.Cfg.App {
 		return w.connectApp(port)
 	}
 	s := &Session{W: w, Port: port, Cli: NewClient()}
+	if w.Who != nil {
+		s.Cli.tid = w.Who()
+	}
 	l1, l1c := w.newHandler(1, w.Cfg.L1H, w.L1)
 	s.L1c = l1c
 	var l2 handlers.Handler
